@@ -1235,5 +1235,15 @@ theorem unmaskedAttrs_no_indexError (mro : List (List Member)) :
     omega
   | cons x xs => simp [unmaskedAttrs]
 
+/-- search documents are the visible objects in registry order -/
+theorem documentOrder_in_registry_order (allobjects : List (Name × Bool)) :
+    (documentOrder allobjects).Sublist (allobjects.map (·.1)) := by
+  unfold documentOrder
+  exact List.Sublist.map _ List.filter_sublist
+
+theorem documentOrder_visible_only (allobjects : List (Name × Bool)) (n : Name) :
+    n ∈ documentOrder allobjects ↔ (n, true) ∈ allobjects := by
+  simp [documentOrder]
+
 
 end Determinism
